@@ -9,6 +9,7 @@ scenario = {
   "props": {"C01": bool, "C04": bool, "C08": bool, "C09": bool},
   "costs": [{"name": str, "metric": str, "full": bool}],   (C04)
   "pre":   [call names executed after the masks are written and before anything is observed]
+  "variant": "auto" | "manual" (autoconvert off, PIT layers placed by the user) | "types" (exclusion by type)
 }
 """
 from __future__ import annotations
@@ -87,7 +88,8 @@ def run(sc: Dict[str, Any]) -> Dict[str, Any]:
             cost_arg = specs[costs[0]["metric"]]
     full = any(c.get("full", False) for c in costs)
     try:
-        ref, pit, x = pitdrv.build(arch, fold_bn=tr["fold"], seed=sc.get("seed", 0), cost=cost_arg, full_cost=full)
+        ref, pit, x = pitdrv.build(arch, fold_bn=tr["fold"], seed=sc.get("seed", 0), cost=cost_arg, full_cost=full,
+                                   variant=sc.get("variant", "auto"))
         tr["conv_ok"] = True
     except Exception as e:
         tr["conv_err"] = f"{type(e).__name__}: {str(e)[:100]}"
